@@ -95,7 +95,8 @@ def _case(draw):
             rc["ealt"] = True
     used = {i for rc in reacs for i in rc["r"] + rc["p"]}
     case = {"mode": mode, "pool": pool, "reactions": reacs, "required": [i for i in range(len(pool)) if i not in used and draw(st.booleans())], "eletter": eletter,
-            "cooling": [], "heating": [], "ode_mod": [], "grain_spelling": draw(st.sampled_from(["GRAIN0", "GRAIN0", "GRAIN0", "mixed"]))}
+            "cooling": [], "heating": [], "ode_mod": [], "grain_spelling": draw(st.sampled_from(["GRAIN0", "GRAIN0", "GRAIN0", "mixed"])),
+            "req_route": draw(st.sampled_from(["constructor", "constructor", "setter-after-read"]))}
     return case
 
 
@@ -112,6 +113,32 @@ def spell(case, sp):
         body = "".join(sym + (str(n) if n != 1 else "") for sym, n in sp["t"])
         return f"{sp['x']}{body}" if sp["x"] in ("c-", "l-") else f"{body}{sp['x']}"
     return M.spell(sp, eletter=case["eletter"])
+
+
+def make_network(case, reacs, names, kw):
+    from naunet.network import Network
+
+    req = [names[i] for i in case["required"]]
+    if case.get("req_route") == "setter-after-read" and req:
+        # the extra species are declared after the network has been looked at (species / elements already read once)
+        net = Network(reactions=reacs, **kw)
+        _ = [s.alias for s in net.species]
+        _ = [e.name for e in net.elements]
+        net.required_species = req
+        return net
+    return Network(reactions=reacs, required_species=req, **kw)
+
+
+GRACKLE = [("e",), ("mol", (("H", 1),), 0), ("mol", (("H", 1),), 1), ("mol", (("He", 1),), 0), ("mol", (("He", 1),), 1), ("mol", (("He", 1),), 2), ("mol", (("H", 1),), -1),
+           ("mol", (("H", 2),), 0), ("mol", (("H", 2),), 1), ("mol", (("D", 1),), 0), ("mol", (("D", 1),), 1), ("mol", (("H", 1), ("D", 1)), 0)]
+
+
+def grackle_key(sp, replacement):
+    if sp["k"] == "e":
+        return ("e",)
+    if sp["k"] != "mol" or sp.get("s") or sp.get("l") or sp.get("x"):
+        return None
+    return ("mol", tuple((replacement.get(a, a), n) for a, n in sp["t"]), sp.get("q", 0))
 
 
 def order_in_fresh_process(case):
@@ -141,7 +168,7 @@ def order_in_fresh_process(case):
         if case.get("grain_spelling") == "mixed" and k % 2 == 1:
             nm = [n.replace("GRAIN0", "GRAIN") if sp["k"] == "grain" else n for sp, n in zip(pool, nm)]
         reacs.append(Reaction([nm[i] for i in rc["r"]], [nm[i] for i in rc["p"]], alpha=1e-10, reaction_type=ReactionType(100), idxfromfile=k))
-    net = Network(reactions=reacs, required_species=[names[i] for i in case["required"]], **kw)
+    net = make_network(case, reacs, names, kw)
     d = Path(tempfile.mkdtemp(prefix="vt-"))
     try:
         EnzoPatch("cpu").render(net, templates=["naunet_enzo.h.j2"], path=d)
@@ -204,7 +231,7 @@ def check_case(case, tier):
     suffix = "/" + sorted(f for f in feats if f.startswith(("excited", "double-grain")))[0] if any(f.startswith(("excited", "double-grain")) for f in feats) else ""
     with N.Scratch() as d:
         try:
-            net = Network(reactions=reacs, required_species=[names[i] for i in case["required"]], **kw)
+            net = make_network(case, reacs, names, kw)
             projs = N.render(net, d, templates="all")
         except Exception as e:
             import traceback
@@ -294,6 +321,14 @@ def check_case(case, tier):
                     failures.append((f"index/enzo-table-order{suffix}", f"A_Table {table[:6] if table else None} vs slot order {want_t[:6]}"))
                 if len(set(n for n, _ in adefs)) != len(adefs):
                     failures.append((f"index/enzo-duplicate{suffix}", "A_<alias> defined twice"))
+                # the number of Enzo species fields: network species + Grackle's own twelve - those both have - the electron
+                mm = re.search(r"^#define[ \t]+ENZO_NSPECIES[ \t]+(\d+)", txt, re.M)
+                rep = UPPER["replacement"] if case["mode"] == "upper" else {}
+                keys = {grackle_key(pool[i], rep) for i in present}
+                both = len([g for g in GRACKLE if g in keys])
+                want_n = nident + len(GRACKLE) - both - 1
+                if mm is None or int(mm.group(1)) != want_n:
+                    failures.append((f"index/enzo-nspecies{suffix}", f"ENZO_NSPECIES = {mm.group(1) if mm else None} but network ({nident}) + grackle (12) - shared ({both}) - electron = {want_n}"))
                 # `naunet render --patch enzo` is a separate invocation: another interpreter, another hash seed
                 if not failures:
                     from ..proc.call import call
